@@ -482,6 +482,12 @@ impl World for WorldS {
             };
             ctx.trace_str(eff.kind());
             ex.run_op(ctx, &eff);
+            if i % 3 == 1 && !ctx.stopped() {
+                let mut addrs = ex.p.clone();
+                addrs.push(ex.gas.clone());
+                let g = ex.gas.clone();
+                crate::surface::probe_unlisted(ctx, &mut ex.sim, &g, "axelar-gas-service", &addrs, &["C14", "C07", "C06"], &["C14", "C07", "C06"]);
+            }
             if !matches!(op, SOp::Resubmit { .. } | SOp::Advance { .. }) {
                 ex.history.push(op.clone());
             }
